@@ -512,6 +512,32 @@ fn k_cases(ctx: &mut Ctx) {
           _ => "PANIC".into(),
         },
       );
+      // z-integral by Gauss–Legendre: the rule's nodes and weights (gauss-quad) are passed in
+      if ctx.rng.below(3) == 0 {
+        let degree = *ctx.rng.pick(&[2usize, 5, 12, 40, 41]);
+        let rule = gauss_quad::GaussLegendre::new(degree.max(2)).unwrap();
+        let pairs: Vec<(f64, f64)> = rule.as_node_weight_pairs().iter().map(|(x, wg)| (0.5 * ((1.0 - (-1.0)) * x + (1.0 + (-1.0))), *wg)).collect();
+        let zs: Vec<f64> = pairs.iter().map(|p| p.0).collect();
+        let ws_: Vec<f64> = pairs.iter().map(|p| p.1).collect();
+        let s2 = spdc.clone();
+        let out = guard(move || {
+          let z = *(phasematch_fiber_coupling(w(ws), w(wi), &s2, Integrator::GaussLegendre { degree }) / PerMeter4::new(1.0));
+          let f = get_pm_integrand(w(ws), w(wi), &s2);
+          let mut acc = 0.0;
+          for (x, wg) in pairs.iter() {
+            let v = f(*x);
+            acc += (v.re.abs() + v.im.abs()) * wg;
+          }
+          (z, 0.5 * acc)
+        });
+        if let Some((z, sc)) = out {
+          ctx.k(
+            "pm_coinc_gl",
+            &format!("{} {} {} {}", st, apod_table(&spdc, &zs), ws_.len(), fls(&ws_)),
+            &format!("{} {}", cx(z), fl(sc)),
+          );
+        }
+      }
       // raw joint amplitude (inside / outside of the support as it comes)
       let s2 = spdc.clone();
       let out = guard(move || jsa_raw(w(ws), w(wi), &s2, Integrator::Simpson { divs }));
@@ -1112,26 +1138,31 @@ fn c07_cases(ctx: &mut Ctx) {
           j2.jsi_singles_normalized(w(ws), w(wi)),
           j1.jsa_normalized(w(ws), w(wi)),
           j2.jsa_normalized(w(ws), w(wi)),
+          j1.jsa(w(ws), w(wi)).norm(),
+          j2.jsa(w(ws), w(wi)).norm(),
         )
       });
       match r {
         None => ctx.s("C07.linear", false, "linear/panic", &det),
-        Some((i1, i2, s1, s2, n1, n2, sn1, sn2, an1, an2)) => {
+        Some((i1, i2, s1, s2, n1, n2, sn1, sn2, an1, an2, am1, am2)) => {
+          // amplitudes whose square leaves the normal f64 range carry no relative precision
+          let amp_ok = |x: f64| x == 0.0 || (x > 1e-145 && x < 1e145);
           let fin = i1.is_finite() && i2.is_finite() && s1.is_finite() && s2.is_finite();
           let e1 = rel_err(i2, f * i1);
           let e2 = rel_err(s2, f * s1);
-          if fin && f * i1 > 1e-290 && f * i1 < 1e290 {
+          if fin && f * i1 > 1e-290 && f * i1 < 1e290 && i1 > 1e-290 && f * s1 > 1e-290 && f * s1 < 1e290 && s1 > 1e-290 {
             worst_lin = worst_lin.max(e1).max(e2);
           }
           let range_ok = |x: f64| x == 0.0 || (x.abs() > 1e-290 && x.abs() < 1e290);
-          ctx.s("C07.linear", !fin || !range_ok(f * i1) || !range_ok(i1) || e1 <= 1e-9, "linear/jsi", &format!("relerr={:e} jsi={:e} jsi_scaled={:e} {}", e1, i1, i2, det));
-          ctx.s("C07.linear", !fin || !range_ok(f * s1) || !range_ok(s1) || e2 <= 1e-9, "linear/jsi-singles", &format!("relerr={:e} jsis={:e} jsis_scaled={:e} {}", e2, s1, s2, det));
+          ctx.s("C07.linear", !fin || !range_ok(f * i1) || !range_ok(i1) || !range_ok(i2) || e1 <= 1e-9, "linear/jsi", &format!("relerr={:e} jsi={:e} jsi_scaled={:e} {}", e1, i1, i2, det));
+          ctx.s("C07.linear", !fin || !range_ok(f * s1) || !range_ok(s1) || !range_ok(s2) || e2 <= 1e-9, "linear/jsi-singles", &format!("relerr={:e} jsis={:e} jsis_scaled={:e} {}", e2, s1, s2, det));
           let fin = n1.is_finite() && n2.is_finite() && sn1.is_finite() && sn2.is_finite() && an1.norm().is_finite() && an2.norm().is_finite();
           let en = rel_err(n1, n2).max(rel_err(sn1, sn2)).max(rel_err_c(an1, an2));
-          if fin && range_ok(f * i1) && range_ok(i1) {
+          if fin && range_ok(f * i1) && range_ok(i1) && range_ok(i2) && range_ok(f * s1) && range_ok(s1) && range_ok(s2) && amp_ok(am1) && amp_ok(am2) {
             worst_inv = worst_inv.max(en);
           }
-          ctx.s("C07.invariant", !fin || !range_ok(f * i1) || !range_ok(i1) || !range_ok(f * s1) || en <= 1e-9, "invariant/normalized-spectra", &format!("relerr={:e} jsi_n=({:e},{:e}) jsis_n=({:e},{:e}) {}", en, n1, n2, sn1, sn2, det));
+          let rng = range_ok(f * i1) && range_ok(i1) && range_ok(i2) && range_ok(f * s1) && range_ok(s1) && range_ok(s2) && amp_ok(am1) && amp_ok(am2);
+          ctx.s("C07.invariant", !fin || !rng || en <= 1e-9, "invariant/normalized-spectra", &format!("relerr={:e} jsi_n=({:e},{:e}) jsis_n=({:e},{:e}) {}", en, n1, n2, sn1, sn2, det));
         }
       }
     }
@@ -1169,8 +1200,8 @@ fn c07_cases(ctx: &mut Ctx) {
           for (r1, r2, name) in rates.iter() {
             let fin = r1.is_finite() && r2.is_finite();
             let e = rel_err(*r2, f * *r1);
-            let ok = !fin || !range_ok(f * *r1) || !range_ok(*r1) || e <= 1e-9;
-            if fin && range_ok(f * *r1) && range_ok(*r1) {
+            let ok = !fin || !range_ok(f * *r1) || !range_ok(*r1) || !range_ok(*r2) || e <= 1e-9;
+            if fin && range_ok(f * *r1) && range_ok(*r1) && range_ok(*r2) {
               worst_lin = worst_lin.max(e);
             } else {
               all_ok = false;
